@@ -79,8 +79,13 @@ func (l Line) bytes() []byte {
 		hb.Write(bytes.Repeat([]byte("M"), 1<<20))
 		b = hb.Bytes()
 	case "long":
-		sizes := []int{65535, 65536, 65537, 66000, 70000, 200000}
-		b = bytes.Repeat([]byte("L"), sizes[l.N%len(sizes)])
+		sizes := []int{65535, 65536, 65537, 66000, 70000, 200000, 4096, 4097, 8192, 12289, 20000}
+		n := sizes[l.N%len(sizes)]
+		// patterns of different periods put '.' (and other bytes) at every residue of small and
+		// power-of-two block sizes somewhere along the line
+		pats := []string{"L", "abc.defgh", "0123456789.", ".x", "wxyz....", "q.rstuvwxyzABCDEFGHIJKLMNOPQRSTUVWXYZ0123456789-_."}
+		pat := pats[(l.N/len(sizes))%len(pats)]
+		b = bytes.Repeat([]byte(pat), n/len(pat)+1)[:n]
 		if l.N%2 == 1 {
 			b[0] = '.'
 		}
